@@ -16,13 +16,16 @@ work="$verif/fuzz/corpus-tmp/$target"; rm -rf "$work"; mkdir -p "$work" "$verif/
 cp "$verif/corpus/$target"/* "$work"/ 2>/dev/null
 log="$verif/out/fuzz-$target.log"
 cd "$verif/harness" || exit 2
-if ! cargo +nightly fuzz build --fuzz-dir ../fuzz --sanitizer none "$target" > "$log" 2>&1; then
+if ! cargo +nightly fuzz build --fuzz-dir "$verif/fuzz" --sanitizer none "$target" > "$log" 2>&1; then
   echo "INCONCLUSIVE property=$prop fuzz target build failed (see $log)"; exit 2
 fi
-timeout ${FUZZ_TIMEOUT:-1500} cargo +nightly fuzz run --fuzz-dir ../fuzz --sanitizer none "$target" "$work" -- \
-  -runs="$runs" -seed="$seed" -len_control=0 -max_len=$maxlen -artifact_prefix="$verif/out/fuzz-artifacts/$target/" >> "$log" 2>&1
+# 8 parallel libFuzzer jobs sharing the corpus directory, each with runs/8 executions
+jobs=8; per=$((runs / jobs))
+( cd "$verif/harness" && timeout ${FUZZ_TIMEOUT:-1500} cargo +nightly fuzz run --fuzz-dir "$verif/fuzz" --sanitizer none "$target" "$work" -- \
+  -runs="$per" -seed="$seed" -len_control=0 -max_len=$maxlen -jobs=$jobs -workers=$jobs -artifact_prefix="$verif/out/fuzz-artifacts/$target/" ) >> "$log" 2>&1
 rc=$?
-execs=$(grep -oE "stat::number_of_executed_units: [0-9]+|Done [0-9]+ runs" "$log" | tail -1)
+cat "$verif"/harness/fuzz-[0-9]*.log >> "$log" 2>/dev/null; rm -f "$verif"/harness/fuzz-[0-9]*.log
+execs="$jobs jobs x $(grep -oE "Done [0-9]+ runs" "$log" | tail -1)"
 if [ $rc -eq 124 ]; then echo "INCONCLUSIVE property=$prop fuzz campaign hit its wall-clock guard ($execs)"; rm -rf "$work"; exit 2; fi
 if [ $rc -ne 0 ]; then
   art=$(ls -t "$verif/out/fuzz-artifacts/$target"/crash-* 2>/dev/null | head -1)
